@@ -96,7 +96,8 @@ func (r *responseStorer) StoreResponse(
 		// request (e.g. "Vary: *" never matches): replace that record instead of
 		// letting the index grow with every request.
 		refIndex = slices.IndexFunc(refs, func(ref *ResponseRef) bool {
-			return ref != nil && ref.ResponseID == responseID
+			return ref != nil && ref.ResponseID == responseID &&
+				maps.Equal(ref.VaryResolved, varyResolved)
 		})
 	}
 	if refIndex < 0 || refIndex >= len(refs) {
